@@ -145,6 +145,65 @@ def modify(kind):
     return None
 
 
+def inplace_and_reset():
+    """(a) exits held as numpy arrays and edited in place are modifications; (b) a second trade that declares the same
+    stop-loss as the first one still gets its stop-loss order"""
+    import numpy as np
+    from jesse.store import store
+    B = base()
+    seen = {}
+
+    class S(B):
+        def should_long(self): return self.index == 1
+
+        def go_long(self):
+            self.buy = 2, self.price
+
+        def on_open_position(self, order):
+            self.stop_loss = np.array([[2.0, 90.0]])
+            self.take_profit = np.array([[2.0, 110.0]])
+
+        def update_position(self):
+            if self.index == 4:
+                self.stop_loss[0, 1] += 1.5
+                self.take_profit[:, 1] -= 2.0
+
+        def after(self):
+            if self.index == 6:
+                seen['active'] = sorted((o.type, o.price) for o in store.orders.get_orders('Sandbox', 'BTC-USDT') if o.is_active and o.reduce_only)
+    run(S, 9)
+    if seen.get('active') != [('LIMIT', 108.0), ('STOP', 91.5)]:
+        return (f'stop-loss / take-profit declared as numpy arrays at 90 / 110 and edited in place to 91.5 / 108: active exit orders two steps '
+                f'later {seen.get("active")}, expected [("LIMIT", 108.0), ("STOP", 91.5)]')
+    # (b)
+    B = base()
+    seen2 = {'stops': []}
+    TSC = [100.0, 100.0, 100.0, 100.0, 89.0, 100.0, 100.0, 100.0, 100.0, 100.0, 100.0]
+
+    class S2(B):
+        def should_long(self): return self.index in (1, 6)
+
+        def go_long(self):
+            self.buy = 1, self.price
+
+        def on_open_position(self, order):
+            self.stop_loss = 1, 90.0
+
+        def after(self):
+            if self.index in (2, 7):
+                seen2['stops'].append(sorted((o.type, o.price) for o in store.orders.get_orders('Sandbox', 'BTC-USDT') if o.is_active and o.reduce_only))
+    from jesse import research
+    c = np.array([[TS0 + i * 60000, TSC[i], TSC[i], max(TSC[i], 100.0), min(TSC[i], 100.0) if TSC[i] >= 100 else 89.0, 10] for i in range(len(TSC))], dtype=float)
+    cfg = {'starting_balance': 100000, 'fee': 0, 'type': 'futures', 'futures_leverage': 5, 'futures_leverage_mode': 'cross',
+           'exchange': 'Sandbox', 'warm_up_candles': 0}
+    research.backtest(cfg, [{'exchange': 'Sandbox', 'strategy': S2, 'symbol': 'BTC-USDT', 'timeframe': '1m'}], [],
+                      {'Sandbox-BTC-USDT': {'exchange': 'Sandbox', 'symbol': 'BTC-USDT', 'candles': c}})
+    if seen2['stops'] != [[('STOP', 90.0)], [('STOP', 90.0)]]:
+        return (f'two consecutive trades, each declaring stop_loss = (1, 90) in on_open_position (the first one is stopped out): active '
+                f'stop orders one step after each entry: {seen2["stops"]}, expected one STOP at 90 both times')
+    return None
+
+
 def liquidate():
     from jesse.store import store
     B = base()
@@ -199,6 +258,13 @@ def cancel_entries():
 def replay(pl):
     ob = pl['obligation']
     d = None
+    if ob.startswith('inplace') or ob.startswith('reset'):
+        try:
+            d = inplace_and_reset()
+        except Exception as ex:
+            import traceback
+            return {'confirmed': False, 'error': f'{type(ex).__name__}: {ex}', 'stderr': traceback.format_exc()[-800:]}
+        return {'confirmed': bool(d), 'detail': d or 'in-place edits are detected and a repeated stop-loss is submitted again'}
     if ob.startswith('entry.buy') or ob.startswith('is_price_near'):
         d = entry('buy') or entry('sell')
     elif ob.startswith('entry.sell') or ob.startswith('entry'):
